@@ -467,16 +467,16 @@ func TestVerifC02Restore(t *testing.T) {
 		n := rapid.IntRange(10, maxCmds).Draw(t, "ncmds")
 		k := rapid.IntRange(0, n).Draw(t, "cut")
 		switch rapid.IntRange(0, 19).Draw(t, "cutkind") { // both ends of the quantifier are hit on purpose
-		case 0:
+		case 18: // (rapid favours small draws: the rare choices sit at the top of the ranges)
 			k = 0
-		case 1:
+		case 19:
 			k = n
 		}
 		plan := &vs.FCmd{Kind: "plan", Cuts: []int{k}}
-		if rapid.IntRange(0, 9).Draw(t, "secondcut") < 3 {
+		if rapid.IntRange(0, 9).Draw(t, "secondcut") >= 7 {
 			plan.Cuts = append(plan.Cuts, rapid.IntRange(k, n).Draw(t, "cut2"))
 		}
-		if rapid.IntRange(0, 9).Draw(t, "lagging") < 3 {
+		if rapid.IntRange(0, 9).Draw(t, "lagging") >= 7 {
 			plan.Reps = 1 + rapid.IntRange(0, k).Draw(t, "lag")
 		}
 		var g *verifLogGen
